@@ -1,5 +1,5 @@
 SPECIFICATION Spec
-CONSTANT StarHost = FALSE
+CONSTANT StarHost = TRUE
 INVARIANT C17_Kepler
 PROPERTY UpdateUsesCurrentMasses
 PROPERTY MassChangeStoresNothing
